@@ -59,17 +59,18 @@ def rule_gate(ctx):
               'Ok(Some(block)) is unreachable from the verify=true edge without calling verify',
               witness=g.fmt_path(g.shortest_path(sw[1], [R], avoid=[v.bb]) or []))
     # result `?`-propagated: the success continuation is the only way on to R
-    br = [cs for cs in g.calls if cs.is_('~Try>::branch$') and mir.strip_sites(peel(g.op_expr(cs.args[0]), calls=False)) == mir.strip_sites(g.call_expr(v))]
+    ve = mir.strip_sites(g.call_expr(v))
     okp = False
-    if br:
-        for (src, dst), fs in g.edge_facts().items():
-            for f in fs:
-                if f[0] == 'is' and f[2] == ('Break',) and peel(f[1], calls=False)[0] == 'call' and peel(f[1], calls=False)[3] == br[0].site:
-                    okp = R not in g.reach_from(dst)
+    for (src, dst), fs in g.edge_facts().items():
+        if g.edge_infeasible(src, dst):
+            continue
+        for f in fs:
+            if f[0] == 'is' and f[2] == ('Err',) and mir.strip_sites(peel(f[1], calls=False)) == ve:
+                okp = R not in g.reach_from(dst)
     ctx.check('gate', 'verify-error-propagated', okp, v, 'Err of verify cannot reach the Ok(Some(block)) return',
               bad_detail='the Result of verify is not propagated: a failed verification still delivers the block')
     a = [canon(x) for x in g.arg_exprs(v)]
-    ctx.check('gate', 'verify-args', a[0] == 'self' and a[1].startswith('(read_block(') and a[1].endswith('as Ok).0') and a[2] == 'a2', v,
+    ctx.check('gate', 'verify-args', a[0] == 'self' and a[1].startswith('read_block(') and a[1].endswith(')?') and a[2] == 'a2', v,
               'verify(self, the block just read, height)')
     # verify happens on the block that is returned
     ret = canon(g.rvalue_expr([d for d in g.defs()[0] if d[1] == R][0][3]))
@@ -106,26 +107,26 @@ def rule_polarity(ctx):
         if d[0] == 'assign':
             c = canon(v.rvalue_expr(d[3]))
             (oks if c.startswith('Result::Ok') else errs).append((util.guards_at(v, d[1]), d[1]))
-    mk = 'branch(verify_merkle_root(a2)) is Continue'
-    gen = ['a2.header.hash != self.coin.genesis_hash', 'a3 == 0', mk]
-    prev = ['a2.header.value.prev_hash != expect(get(self.chain_index, (a3 - 1)), "unable to fetch prev block in chain index").block_hash', 'a3 != 0', mk]
+    mk = 'verify_merkle_root(a2) is Ok'
+    gen = sorted(['a2.header.hash != self.coin.genesis_hash', 'a3 <= 0', mk])
+    prev = sorted(['a2.header.value.prev_hash != expect(get(self.chain_index, (a3 - 1)), "unable to fetch prev block in chain index").block_hash', '0 < a3', mk])
     eg = [e for e in errs if e[0] == gen]
     ep = [e for e in errs if e[0] == prev]
-    ctx.check('polarity', 'genesis:err-on-different-at-height-0', len(eg) == 1, v, 'Err(genesis mismatch) under %s' % [e[0] for e in errs if 'a3 == 0' in e[0]])
-    ctx.check('polarity', 'prev:err-on-different-at-height>0', len(ep) == 1, v, 'Err(prev mismatch) under %s' % [e[0] for e in errs if 'a3 != 0' in e[0]])
+    ctx.check('polarity', 'genesis:err-on-different-at-height-0', len(eg) == 1, v, 'Err(genesis mismatch) under %s' % [e[0] for e in errs if 'a3 <= 0' in e[0]])
+    ctx.check('polarity', 'prev:err-on-different-at-height>0', len(ep) == 1, v, 'Err(prev mismatch) under %s' % [e[0] for e in errs if '0 < a3' in e[0]])
     ctx.check('polarity', 'no-other-error', len(errs) == 2, v, '%d explicit Err returns' % len(errs))
     # Ok(()) reachable only through the equal edges: the Ok block's predecessors' facts
     if len(oks) == 1:
         ob = oks[0][1]
         conds = sorted(tuple(sorted(util.crel(x) for x in util.facts_to_rels(v.facts_on_edge(p, ob)) if 'le(Level' not in util.crel(x))) for p in v.pred[ob])
-        exp = sorted([('a2.header.hash == self.coin.genesis_hash', 'a3 == 0', mk),
-                      ('a2.header.value.prev_hash == expect(get(self.chain_index, (a3 - 1)), "unable to fetch prev block in chain index").block_hash', 'a3 != 0', mk)])
+        exp = sorted([tuple(sorted(('a2.header.hash == self.coin.genesis_hash', 'a3 <= 0', mk))),
+                      tuple(sorted(('a2.header.value.prev_hash == expect(get(self.chain_index, (a3 - 1)), "unable to fetch prev block in chain index").block_hash', '0 < a3', mk)))])
         ctx.check('polarity', 'ok-only-on-equal-edges', conds == exp, (v, ob), 'Ok(()) reached on %s' % conds)
     else:
         ctx.violation('polarity', 'ok-returns=%d' % len(oks), v, 'expected one Ok(()) return')
     # merkle check is `?`-propagated first
     fr = [d for d in v.defs().get(0, []) if d[0] == 'call' and mir.method_name(d[2].name) == 'from_residual']
-    ctx.check('polarity', 'merkle-result-propagated', len(fr) == 1 and util.guards_at(v, fr[0][1]) == ['branch(verify_merkle_root(a2)) is Break'], v, '`?` on verify_merkle_root')
+    ctx.check('polarity', 'merkle-result-propagated', len(fr) == 1 and util.guards_at(v, fr[0][1]) == ['verify_merkle_root(a2) is Err'], v, '`?` on verify_merkle_root')
 
 
 def rule_inputs(ctx):
